@@ -32,6 +32,13 @@ Definition eid_is (i : eid) (e : pedge) : bool :=
   path_eqb (pe_src e) (i_src i) && path_eqb (pe_dst e) (i_dst i)
   && Bool.eqb (pe_sa e) (i_sa i) && Bool.eqb (pe_da e) (i_da i) && (pe_idx e =? i_idx i).
 
+(* the ID of a connection of graph g *)
+Definition eid_of (g : graph) (e : edge) : option eid :=
+  match path_of (rows g) (e_src e), path_of (rows g) (e_dst e) with
+  | Some s, Some d => Some (mkEid s d (e_sa e) (e_da e) (e_idx e))
+  | _, _ => None
+  end.
+
 Fixpoint pedge_at (i : eid) (es : list pedge) : option attrs :=
   match es with
   | [] => None
